@@ -103,7 +103,7 @@ func (i *interpreter) posOf(instr ssa.Instruction) string {
 		return instr.Parent().String()
 	}
 	p := i.prog.Fset.Position(pos)
-	return fmt.Sprintf("%s:%d", strings.TrimPrefix(p.Filename, "/repo/"), p.Line)
+	return fmt.Sprintf("%s:%d", strings.TrimPrefix(strings.TrimPrefix(p.Filename, "/repo/"), os.Getenv("VERIF_REPO")+"/"), p.Line)
 }
 
 // rtPanic raises a Go run-time panic in the target program.
